@@ -143,7 +143,7 @@ func (ni *namespaceInformer) start() {
 	if err := wait.PollUntilContextCancel(cctx, DefaultSyncTime, true, func(_ context.Context) (bool, error) {
 		return ni.SharedInformer.HasSynced(), nil
 	}); err != nil {
-		ni.Monitor.Logger.Error("Cache is not synced for informer",
+		log.Error("Cache is not synced for informer",
 			slog.String("debugName", ni.Monitor.Metadata.DebugName))
 	}
 
